@@ -80,6 +80,13 @@ pub struct Cfg {
     pub max_crashes: u32,
     pub allow_release: bool,
     pub allow_sync: bool,
+    /// replicas other than 0 only follow (P2P sync) until replica 0 has committed this height
+    pub standby_until: u32,
+    /// fine-grained deviations: per-call Drop/Defer, split fan-outs, preemptive
+    /// switches, faults in the middle of an operation (false: only the macro
+    /// faults Partition/Crash/Expire/Release/WipeNode at operation boundaries)
+    pub fine_faults: bool,
+    pub max_partitions: u32,
 }
 
 #[derive(Clone, Copy, Debug, Serialize, Deserialize, PartialEq, Eq)]
@@ -96,6 +103,8 @@ pub enum Fate {
 pub enum Op {
     Tick(usize),
     Exec { r: usize, n: usize, k: usize, fate: Fate },
+    /// all calls of replica r's current join_all fan-out, in node order, with these fates
+    Batch { r: usize, fates: Vec<Fate> },
     Commit(usize),
     GhostExec(usize),
     Expire(usize),
@@ -106,11 +115,21 @@ pub enum Op {
     WipeNode(usize),
     /// replica r imports the next block from a peer that already committed it (P2P sync)
     Sync(usize),
+    /// replica r cannot reach node n any more: every call fails without executing
+    Partition { r: usize, n: usize },
+    Heal { r: usize, n: usize },
 }
 
 // ---------------------------------------------------------------------------
 // scripts (text read from the repository at run time)
 // ---------------------------------------------------------------------------
+
+impl Kind {
+    /// scripts that never modify the node: executing one whose reply nobody reads is a no-op
+    pub fn read_only(self) -> bool {
+        matches!(self, Kind::Check | Kind::ReadLatest | Kind::ReadEntries)
+    }
+}
 
 #[derive(Clone, Copy, Debug, PartialEq, Eq, PartialOrd, Ord)]
 pub enum Kind {
@@ -389,6 +408,7 @@ pub struct Call {
     pub r: usize,
     pub n: usize,
     conn: u64,
+    pub kind: Kind,
     sha: String,
     keys: Vec<Vec<u8>>,
     argv: Vec<Vec<u8>>,
@@ -471,6 +491,11 @@ pub struct World {
     tokens: HashMap<Vec<u8>, String>,
     pub wipes: u32,
     pub crashes: u32,
+    pub partitions: u32,
+    /// some replica has ticked already
+    pub started: bool,
+    /// (replica, node) links that are cut
+    pub cut: BTreeSet<(usize, usize)>,
     /// replica whose operation is in progress (for counting preemptive context switches)
     pub cur: Option<usize>,
     pub quorum: usize,
@@ -576,6 +601,9 @@ impl World {
             tokens: HashMap::new(),
             wipes: 0,
             crashes: 0,
+            partitions: 0,
+            started: false,
+            cut: BTreeSet::new(),
             cur: None,
             quorum: 0,
             prev_epoch: vec![0; cfg.nodes],
@@ -696,17 +724,83 @@ impl World {
 
     pub fn enabled(&self) -> Vec<Op> {
         let mut v = vec![];
+        // Purely local steps first (sound priority: they commute with every letter of
+        // another replica and of the environment, so postponing those loses nothing):
+        //  * a replica that has a block ready commits/imports it now, or crashes before it does;
+        //  * a crashed replica restarts (a replica that stays down = one that never ticks again).
+        for (r, rep) in self.reps.iter().enumerate() {
+            if matches!(rep.phase, Phase::ReadyToCommit(_) | Phase::ReadyToImport(_)) {
+                v.push(Op::Commit(r));
+                if self.crashes < self.cfg.max_crashes {
+                    v.push(Op::Crash(r));
+                }
+                return v;
+            }
+        }
+        if let Some(r) = self.reps.iter().position(|rep| rep.phase == Phase::Down) {
+            return vec![Op::Restart(r)];
+        }
         let max_epoch = (0..self.cfg.nodes).map(|n| self.node_epoch(n)).max().unwrap_or(0);
         // queued script calls: Deliver first
         let mut per: BTreeMap<(usize, usize), usize> = BTreeMap::new();
         let mut faults = vec![];
+        let fine = self.cfg.fine_faults;
+        let any_busy = self.reps.iter().any(|r| matches!(r.phase, Phase::Busy(_)));
+        for r in 0..self.reps.len() {
+            let batch = self.batch(r);
+            if batch.len() > 1 {
+                // whole fan-out at once; with fine faults every combination of fates (the deviation bound prunes)
+                let mut combos: Vec<Vec<Fate>> = vec![vec![]];
+                for i in &batch {
+                    // a deferred read-only call is indistinguishable from a dropped one
+                    let fates: &[Fate] = if !fine {
+                        &[Fate::Deliver]
+                    } else if self.queue[*i].kind.read_only() {
+                        &[Fate::Deliver, Fate::Drop]
+                    } else {
+                        &[Fate::Deliver, Fate::Drop, Fate::Defer]
+                    };
+                    combos = combos
+                        .into_iter()
+                        .flat_map(|c| {
+                            fates.iter().map(move |f| {
+                                let f = *f;
+                                let mut c2 = c.clone();
+                                c2.push(f);
+                                c2
+                            })
+                        })
+                        .collect();
+                }
+                combos.sort_by_key(|c| c.iter().filter(|f| **f != Fate::Deliver).count());
+                for c in combos {
+                    if c.iter().all(|f| *f == Fate::Deliver) {
+                        v.push(Op::Batch { r, fates: c });
+                    } else {
+                        faults.push(Op::Batch { r, fates: c });
+                    }
+                }
+            }
+        }
         for c in &self.queue {
             let k = per.entry((c.r, c.n)).or_insert(0);
             let orphan = self.is_orphan(c);
-            v.push(Op::Exec { r: c.r, n: c.n, k: *k, fate: Fate::Deliver });
-            faults.push(Op::Exec { r: c.r, n: c.n, k: *k, fate: Fate::Drop });
-            if !orphan {
-                faults.push(Op::Exec { r: c.r, n: c.n, k: *k, fate: Fate::Defer });
+            let single = Op::Exec { r: c.r, n: c.n, k: *k, fate: Fate::Deliver };
+            let costly = self.is_partial(&single) || self.is_preemption(&single);
+            if costly {
+                // splitting a fan-out / preempting is itself a deviation
+                if fine {
+                    faults.push(single);
+                }
+            } else {
+                v.push(single);
+            }
+            // a straggler that is never delivered is a dropped one: no Drop/Defer letters for it
+            if !orphan && fine {
+                faults.push(Op::Exec { r: c.r, n: c.n, k: *k, fate: Fate::Drop });
+                if !c.kind.read_only() {
+                    faults.push(Op::Exec { r: c.r, n: c.n, k: *k, fate: Fate::Defer });
+                }
             }
             *k += 1;
         }
@@ -714,42 +808,71 @@ impl World {
             v.push(Op::GhostExec(g));
         }
         for (r, rep) in self.reps.iter().enumerate() {
+            let mut mine = vec![];
             match &rep.phase {
                 Phase::Idle => {
-                    if self.last_height(r) < self.cfg.max_height && max_epoch < self.cfg.max_epoch {
-                        v.push(Op::Tick(r));
+                    let standby = r > 0 && self.last_height(0) < self.cfg.standby_until;
+                    if self.last_height(r) < self.cfg.max_height && max_epoch < self.cfg.max_epoch && !standby {
+                        mine.push(Op::Tick(r));
                     }
                 }
-                Phase::ReadyToCommit(_) | Phase::ReadyToImport(_) => v.push(Op::Commit(r)),
                 _ => {}
             }
-            if rep.phase == Phase::Idle && self.cfg.allow_sync && self.sync_source(r).is_some() {
-                v.push(Op::Sync(r));
+            // P2P sync touches only r's own database: its timing matters only relative to r's own ticks
+            if !mine.is_empty() && self.cfg.allow_sync && self.sync_source(r).is_some() {
+                mine.push(Op::Sync(r));
             }
-        }
-        v.extend(faults);
-        let lock = LEASE_KEY.as_bytes();
-        let held: Vec<usize> = (0..self.cfg.nodes).filter(|n| self.nodes[*n].strings.contains_key(lock)).collect();
-        for n in &held {
-            v.push(Op::Expire(*n));
-        }
-        if held.len() > 1 {
-            v.push(Op::ExpireAll);
-        }
-        for (r, rep) in self.reps.iter().enumerate() {
-            match rep.phase {
-                Phase::Down => v.push(Op::Restart(r)),
-                _ => {
-                    if self.crashes < self.cfg.max_crashes {
-                        v.push(Op::Crash(r));
-                    }
-                    if rep.phase == Phase::Idle && self.cfg.allow_release {
-                        v.push(Op::Release(r));
+            for op in mine {
+                if fine || !self.is_preemption(&op) {
+                    v.push(op);
+                }
+            }
+            if rep.phase != Phase::Down && !matches!(rep.phase, Phase::Busy(_)) {
+                for n in 0..self.cfg.nodes {
+                    if fine && self.cut.contains(&(r, n)) {
+                        v.push(Op::Heal { r, n });
                     }
                 }
             }
         }
-        if self.wipes < self.cfg.budget {
+        let lock = LEASE_KEY.as_bytes();
+        let held: Vec<usize> = (0..self.cfg.nodes).filter(|n| self.nodes[*n].strings.contains_key(lock)).collect();
+        if !held.is_empty() && (fine || !any_busy) {
+            v.push(Op::ExpireAll);
+        }
+        v.extend(faults);
+        if fine || !any_busy {
+            for n in &held {
+                v.push(Op::Expire(*n));
+            }
+        }
+        for (r, rep) in self.reps.iter().enumerate() {
+            match &rep.phase {
+                Phase::Down => {}
+                p => {
+                    // without fine faults a crash happens between operations or in the middle of a publish
+                    let boundary = !matches!(p, Phase::Busy(Busy::LeaderState(_) | Busy::Release | Busy::ReleaseAfterFailedPublish));
+                    if self.crashes < self.cfg.max_crashes && (fine || boundary) {
+                        v.push(Op::Crash(r));
+                    }
+                    if *p == Phase::Idle && self.cfg.allow_release && (fine || !any_busy) {
+                        v.push(Op::Release(r));
+                    }
+                    // without fine faults partitions are static: cut before anything happens, never healed
+                    if !matches!(p, Phase::Busy(_)) && self.partitions < self.cfg.max_partitions && (fine || !self.started) {
+                        // static cuts: the nodes are interchangeable before anything has happened,
+                        // so cutting replica r from node 0 stands for cutting it from any one node
+                        let nodes = if fine { self.cfg.nodes } else { 1 };
+                        for n in 0..nodes {
+                            if !self.cut.contains(&(r, n)) {
+                                v.push(Op::Partition { r, n });
+                            }
+                        }
+                    }
+                }
+            }
+        }
+        if self.wipes < self.cfg.budget && (fine || !any_busy) {
             for n in 0..self.cfg.nodes {
                 v.push(Op::WipeNode(n));
             }
@@ -769,13 +892,40 @@ impl World {
     /// execution of a straggler/ghost call nobody waits for).
     fn actor(&self, op: &Op) -> Option<usize> {
         match op {
-            Op::Tick(r) | Op::Commit(r) | Op::Release(r) | Op::Sync(r) => Some(*r),
+            Op::Tick(r) | Op::Commit(r) | Op::Release(r) | Op::Sync(r) | Op::Batch { r, .. } => Some(*r),
             Op::Exec { r, n, k, .. } => {
                 let c = self.queue.iter().filter(|c| c.r == *r && c.n == *n).nth(*k)?;
                 (!self.is_orphan(c)).then_some(*r)
             }
             _ => None,
         }
+    }
+
+    /// Indices (into the queue) of the calls of replica r's current join_all fan-out:
+    /// its queued async calls (the next fan-out is only issued once all are answered).
+    fn batch(&self, r: usize) -> Vec<usize> {
+        let mut v: Vec<usize> = self.queue.iter().enumerate().filter(|(_, c)| c.r == r && c.sync_pub.is_none()).map(|(i, _)| i).collect();
+        v.sort_by_key(|i| self.queue[*i].n);
+        v
+    }
+
+    /// Is `op` the delivery of a single call out of a join_all fan-out that still has several?
+    pub fn is_partial(&self, op: &Op) -> bool {
+        match op {
+            Op::Exec { r, n, k, .. } => {
+                let Some(c) = self.queue.iter().filter(|c| c.r == *r && c.n == *n).nth(*k) else { return false };
+                c.sync_pub.is_none() && self.batch(*r).len() > 1
+            }
+            _ => false,
+        }
+    }
+
+    /// Structural deviation cost of `op` here: preemptive switch, split fan-out, or a
+    /// whole-lease expiry while some replica is in the middle of an operation (when
+    /// every replica is between operations, a lease that runs out is ordinary life).
+    pub fn structural_cost(&self, op: &Op) -> u32 {
+        let busy = self.reps.iter().any(|r| matches!(r.phase, Phase::Busy(_)));
+        self.is_preemption(op) as u32 + self.is_partial(op) as u32 + (matches!(op, Op::ExpireAll) && busy) as u32
     }
 
     /// Does `op` switch to another replica while the current one is in the middle of an operation?
@@ -808,6 +958,13 @@ impl World {
     fn apply_inner(&mut self, op: &Op) -> Res<String> {
         self.obs.clear();
         match op {
+            Op::Partition { r, n } => {
+                self.partitions += 1;
+                self.cut.insert((*r, *n));
+            }
+            Op::Heal { r, n } => {
+                self.cut.remove(&(*r, *n));
+            }
             Op::Sync(r) => {
                 let r = *r;
                 let tag = self.sync_source(r).unwrap_or_else(|| machinery(format!("Sync({r}) without source")));
@@ -821,6 +978,7 @@ impl World {
                     machinery(format!("Tick({r}) while {:?}", self.reps[r].phase));
                 }
                 let next = self.last_height(r) + 1;
+                self.started = true;
                 self.start(r, Cmd::LeaderState(next), Busy::LeaderState(next))?;
             }
             Op::Exec { r, n, k, fate } => {
@@ -833,6 +991,16 @@ impl World {
                     .nth(*k)
                     .unwrap_or_else(|| machinery(format!("no queued call {op:?}")));
                 self.exec(idx, *fate)?;
+            }
+            Op::Batch { r, fates } => {
+                let calls: Vec<(usize, u64)> = self.batch(*r).into_iter().map(|i| (self.queue[i].n, self.queue[i].conn)).collect();
+                if calls.len() != fates.len() || calls.len() < 2 {
+                    machinery(format!("{op:?} does not match the fan-out in flight ({} calls)", calls.len()));
+                }
+                for ((n, conn), fate) in calls.into_iter().zip(fates.iter()) {
+                    let idx = self.queue.iter().position(|c| c.r == *r && c.n == n && c.conn == conn).unwrap_or_else(|| machinery("fan-out call vanished".into()));
+                    self.exec(idx, *fate)?;
+                }
             }
             Op::Commit(r) => {
                 let r = *r;
@@ -877,7 +1045,10 @@ impl World {
             }
             Op::Crash(r) => {
                 self.crashes += 1;
-                self.kill(*r, true)?;
+                // calls in flight die with the connections (a write that did execute before
+                // the crash is the schedule "deliver it, then crash")
+                self.kill(*r, false)?;
+                self.cut.retain(|(cr, _)| cr != r);
             }
             Op::Restart(r) => {
                 self.reps[*r].inc += 1;
@@ -946,7 +1117,7 @@ impl World {
         loop {
             let settled = self.settle(r, p0, wrote.take())?;
             let out = match settled {
-                Settled::Waiting => return Ok(()),
+                Settled::Waiting => return self.fail_cut_calls(r),
                 Settled::Done(out) => out,
             };
             let Phase::Busy(busy) = self.reps[r].phase.clone() else { machinery("operation result without operation".into()) };
@@ -1000,6 +1171,14 @@ impl World {
                 }
                 (b, o) => machinery(format!("unexpected operation result {o:?} while {b:?}")),
             }
+        }
+    }
+
+    /// Replica r waits for the explorer: calls it sent over a cut link fail right away, unexecuted.
+    fn fail_cut_calls(&mut self, r: usize) -> Res<()> {
+        match self.queue.iter().position(|c| c.r == r && self.cut.contains(&(c.r, c.n)) && !self.is_orphan(c)) {
+            Some(idx) => self.exec(idx, Fate::Drop), // ends by driving r again
+            None => Ok(()),
         }
     }
 
@@ -1070,7 +1249,7 @@ impl World {
         if *kind == Kind::Write && matches!(self.reps[r].phase, Phase::Busy(Busy::LeaderState(_))) {
             self.obs.push(format!("r{r}: repair-write to n{n}"));
         }
-        self.queue.push(Call { r, n, conn, sha, keys, argv, sync_pub, desc });
+        self.queue.push(Call { r, n, conn, kind: *kind, sha, keys, argv, sync_pub, desc });
     }
 
     /// The runtime thread of replica r is parked: collect what its async connections sent.
@@ -1176,6 +1355,9 @@ impl World {
             }
             Fate::Drop => Resp::err("ERR verif: request lost"),
             Fate::Defer => {
+                if call.kind.read_only() {
+                    machinery("Defer offered for a read-only call".into());
+                }
                 self.ghosts.push(Ghost { n, sha: call.sha.clone(), keys: call.keys.clone(), argv: call.argv.clone(), desc: call.desc.clone() });
                 Resp::err("ERR verif: request timed out")
             }
@@ -1230,7 +1412,7 @@ impl World {
                 if finished {
                     self.drive(r, p0, None)
                 } else {
-                    Ok(())
+                    self.fail_cut_calls(r)
                 }
             }
         }
@@ -1242,7 +1424,7 @@ impl World {
         let mine: Vec<Call> = self.queue.iter().filter(|c| c.r == r).cloned().collect();
         self.queue.retain(|c| c.r != r);
         if keep_ghosts {
-            for c in mine {
+            for c in mine.into_iter().filter(|c| !c.kind.read_only()) {
                 self.ghosts.push(Ghost { n: c.n, sha: c.sha, keys: c.keys, argv: c.argv, desc: c.desc });
             }
         }
@@ -1281,7 +1463,7 @@ impl World {
         s += &format!("Q{lanes:?}|");
         let mut g: Vec<String> = self.ghosts.iter().map(|g| format!("n{}{}", g.n, g.desc)).collect();
         g.sort();
-        s += &format!("G{g:?}|w{}c{}cur{:?}", self.wipes, self.crashes, self.cur);
+        s += &format!("G{g:?}|w{}c{}p{}cut{:?}cur{:?}st{}", self.wipes, self.crashes, self.partitions, self.cut, self.cur, self.started);
         s.into_bytes()
     }
 
